@@ -92,6 +92,35 @@ theorem blocked_receive_ctx_code (k : CtxKind) (bodyErr : GoError) (hk : bodyErr
   · simp [envelopePrefixError, hne, GoError.asError, clientReceiveError, GoError.codeOf]
   · simp [envelopePayloadError, GoError.asError, clientReceiveError, hne, GoError.codeOf]
 
+/-- **watched_receive_ctx_code** (F7): the call's context ends while `Receive` is blocked and the
+    transport cannot see it (HTTP/2, request side open: the transport is itself blocked reading
+    the request pipe). The watcher stores the context error and closes the pipe; *whatever*
+    error the body read then returns (closed pipe, stream reset, the context error itself —
+    anything but a clean end of body), `Receive` fails with canceled / deadline_exceeded. -/
+theorem watched_receive_ctx_code (k : CtxKind) (bodyErr : GoError) (hne : bodyErr.isEOF = false) (n : Nat) :
+    let stored := setError none (.ctx k)
+    (clientReceiveError (envelopePrefixError n (duplexReadErrorStored stored bodyErr))).codeOf = ctxCode k ∧
+    (clientReceiveError (envelopePayloadError (duplexReadErrorStored stored bodyErr))).codeOf = ctxCode k := by
+  have hs : setError none (.ctx k) = some (.coded (ctxCode k) (.ctx k)) := by
+    cases k <;> simp [setError, wrapIfContextError, GoError.asError, GoError.isCtx, ctxCode]
+  simp only [hs, duplexReadErrorStored, hne, Bool.false_eq_true, if_false]
+  have hne2 : (GoError.coded (ctxCode k) (.ctx k)).isEOF = false := by simp [GoError.isEOF]
+  constructor
+  · simp [envelopePrefixError, hne2, GoError.asError, clientReceiveError, GoError.codeOf]
+  · simp [envelopePayloadError, GoError.asError, clientReceiveError, hne2, GoError.codeOf]
+
+/-- history: without the stored-error preference (the definition before fix F7) a closed-pipe
+    error surfacing from the body read is reported as invalid_argument / unknown -/
+theorem watched_receive_fails_on_pinned :
+    (clientReceiveError (envelopePrefixError 0 (duplexReadError .opaque))).codeOf = codeInvalidArgument ∧
+    (clientReceiveError (envelopePayloadError (duplexReadError .opaque))).codeOf = codeUnknown := by decide
+
+/-- a clean end of the body is still a clean end (the stored error does not mask it here; the
+    protocol layer decides what a missing terminator means) -/
+theorem stored_error_keeps_eof (stored : Option GoError) : duplexReadErrorStored stored .eof = .eof := by
+  simp [duplexReadErrorStored, GoError.isEOF, duplexReadError, wrapIfRSTError, wrapIfContextError, GoError.asError,
+    GoError.rstName, GoError.isCtx]
+
 /-- **request_ctx_code**: `Do` fails because the context ended (typically `*url.Error` wrapping the
     context error): the stored error — what every later operation reports — is canceled /
     deadline_exceeded, not unavailable. -/
